@@ -7,11 +7,11 @@ class ApiHelpers(pipeline.Module):
     gen_module = "ApiHelpers"
     driver = "apihelpers"
     begin_marker = '"ev":"Help"'
-    invariants = "ShorthandsPartition CmpIsEquivalence"
+    invariants = "ShorthandsPartition CmpIsEquivalence PrettyParses NameSplitsBack"
     assumptions = ["Cmp is specified as documented ('returns true if the ... are equal')"]
 
     def gen_configs(self, prop, tier, sd):
-        return [(m, '  Mode = "%s"' % m) for m in ("parse", "misc", "mounts")]
+        return [(m, '  Mode = "%s"' % m) for m in ("parse", "misc", "mounts", "mask")]
 
     def driver_args(self, prop, tier, sd, scen, trace):
         return ["apihelpers", "-in", scen, "-out", trace]
@@ -19,6 +19,7 @@ class ApiHelpers(pipeline.Module):
     def rule(self):
         return ("scenario = one call: ParseEventMask / MustParseEventMask on 1-2 tokens (event names, shorthands, empty, "
                 "unknown; lower / camel / upper / padded; one or two arguments), the removal-marker functions on 7 keys, "
+                "ParsePluginName / CheckPluginIndex on 19 names, EventMask Set / Clear / IsSet / PrettyString / re-parse on 8 x 8 x 2 masks, "
                 "Mount.Cmp on 8 x 8 mounts, LinuxDevice.Cmp on 4 x 4 devices, Hooks.Append / Hooks() on 324 pairs")
 
 
